@@ -36,6 +36,13 @@ TRecv  == IsEvent("Recv")
                 THEN sent[Line.id].dir = "p2c" /\ Line.from = sent[Line.id].from
                 ELSE sent[Line.id].dir = "c2p" /\ Line.at = sent[Line.id].to /\ Line.fromrelay)
           /\ got' = got \cup {Line.id} /\ UNCHANGED <<sent, mtu>>
+\* the application read with a buffer smaller than the datagram at the head of the queue: the datagram is
+\* refused (io.ErrShortBuffer), never handed over cut to the buffer (the driver does this only when one
+\* known datagram can be queued)
+TShort == IsEvent("Short")
+          /\ Line.id \in DOMAIN sent /\ Line.id \notin got
+          /\ sent[Line.id].dir = "p2c" /\ sent[Line.id].len > Line.buf
+          /\ got' = got \cup {Line.id} /\ UNCHANGED <<sent, mtu>>
 \* documented limits: a client message is processed iff its wire size is below the inbound MTU (a Send
 \* indication of the real client is 48 bytes larger than its padded payload), a peer datagram iff <= 1600
 Must(s) == IF s.dir = "c2p" THEN s.len <= mtu - 52 ELSE s.len <= 1600 /\ s.len <= mtu - 52
@@ -43,7 +50,7 @@ TEnd   == IsEvent("End")
           /\ \A id \in DOMAIN sent : Must(sent[id]) => id \in got
           /\ UNCHANGED <<sent, got, mtu>>
 TNote  == IsEvent("Note") /\ UNCHANGED <<sent, got, mtu>>
-TNext == TReset \/ TSend \/ TRecv \/ TEnd \/ TNote
+TNext == TReset \/ TSend \/ TRecv \/ TShort \/ TEnd \/ TNote
 TSpec == TInit /\ [][TNext]_tvars
 
 Progress == TLCSet(1, IF l > TLCGet(1) THEN l ELSE TLCGet(1))
